@@ -12,6 +12,7 @@ import (
 	"vmon/internal/clause"
 	"vmon/internal/core"
 	"vmon/internal/drive"
+	"vmon/internal/gen"
 	"vmon/internal/ref"
 )
 
@@ -521,6 +522,28 @@ func c01Random(res *core.Result, rng *rand.Rand, i int) {
 			s := make([]uint16, n)
 			v = reflect.ValueOf(s)
 		}
+	}
+	// one case in six uses a DEFINED type of the same kind (type GInt int32, type GStr string, ...):
+	// the verdict must not depend on the type's identity
+	if rng.Intn(6) == 0 {
+		switch v.Kind() {
+		case reflect.Int32:
+			v = v.Convert(gen.TGInt)
+		case reflect.Uint16:
+			v = v.Convert(gen.TGUint)
+		case reflect.String:
+			v = v.Convert(gen.TGStr)
+		case reflect.Slice:
+			if v.Type().Elem().Kind() == reflect.String {
+				v = v.Convert(reflect.SliceOf(gen.TString)) // unchanged; defined element types below
+				d := reflect.MakeSlice(reflect.SliceOf(gen.TGStr), v.Len(), v.Len())
+				for j := 0; j < v.Len(); j++ {
+					d.Index(j).SetString(v.Index(j).String())
+				}
+				v = d
+			}
+		}
+		res.Count("defined_type_cases")
 	}
 	m, _ := ref.Measure(v)
 	text := sizeRuleText(rule, lo, hi)
